@@ -25,7 +25,9 @@ def run(ctx):
     rng = ctx.rng
     ctx.rule = ('count vectors: every vector of length 1..L with entries 0..M (list and ndarray), plus random long '
                 'vectors; non-trivial := f1 > 0 and the value differs from S_obs; set measures: all pairs of small '
-                'collections over a 5-token pool as list/tuple/set/Series with duplicates and missing values; '
+                'collections over a 5-token pool as list/tuple/set/Series with duplicates and missing values, the tokens realised '
+                'as numbers, strings, tuples (paired chains) and mixed str/int/float/tuple items (one token = one class under '
+                'Python ==/hash); '
                 'non-trivial := intersection non-empty and the two element sets differ')
     L, M = (4, 4) if ctx.quick else (5, 6)
     vecs = [list(v) for n in range(1, L + 1) for v in itertools.product(range(M + 1), repeat=n)]
@@ -71,7 +73,21 @@ def run(ctx):
 
     # ---- set measures
     pool = [1, 2, 3, 4, 5]
-    names = {1: 'a', 2: 'b', 3: 'c', 4: 'd', 5: 'e'}
+    # Element kinds.  The model works on tokens; a token stands for one class of Python objects under ==/hash (the
+    # elements of the collections are arbitrary hashable items compared by Python equality), so every kind maps a
+    # token to the list of its interchangeable Python spellings and different tokens to unequal objects:
+    #   num    plain numbers;   str  plain strings;
+    #   tuple  paired-chain clonotypes (alpha, beta): all tokens are built from the same few chains, so two element
+    #          sets can consist of exactly the same chains and still share no element;
+    #   mixed  heterogeneous items: the integer 1 (== 1.0) is not the string '1', nor the tuple ('1',).
+    reps = {'num': {t: [t] for t in pool},
+            'str': {1: ['a'], 2: ['b'], 3: ['c'], 4: ['d'], 5: ['e']},
+            'tuple': {1: [('a', 'b')], 2: [('b', 'a')], 3: [('a', 'a')], 4: [('b', 'b')], 5: [('a', 'c')]},
+            'mixed': {1: [1, 1.0], 2: ['1'], 3: [2, 2.0], 4: ['2'], 5: [('1',)]}}
+    for kd, table in reps.items():          # self-check of the tokenisation: same token <=> equal and equal hash
+        flat = [(t, x) for t, xs in table.items() for x in xs]
+        for (t1, x1), (t2, x2) in itertools.product(flat, flat):
+            assert (t1 == t2) == (x1 == x2 and hash(x1) == hash(x2)), (kd, x1, x2)
     small = [list(c) for n in range(0, 4) for c in itertools.product([None] + pool[:3], repeat=n)]
     pairs = list(itertools.product(small, small))
     if ctx.quick:
@@ -86,8 +102,8 @@ def run(ctx):
 
     def realise(tokens, cont, kind, na=None):
         # the missing-value marker of string-like data varies: None, float nan, pd.NA (what .tolist() of a nullable column holds)
-        vals = [names[t] if (t is not None and kind == 'str') else (np.nan if t is None and kind == 'num' else (na if t is None else t))
-                for t in tokens]
+        vals = [(np.nan if kind == 'num' else na) if t is None else
+                (reps[kind][t][0] if len(reps[kind][t]) == 1 else rng.choice(reps[kind][t])) for t in tokens]
         if cont == 'list':
             return vals
         if cont == 'tuple':
@@ -95,61 +111,80 @@ def run(ctx):
         if cont == 'set':
             return set(vals)
         if cont == 'series':
-            return pd.Series(vals, dtype=object if kind == 'str' else float)
+            return pd.Series(vals, dtype=float if kind == 'num' else object)
         raise ValueError(cont)
 
+    def show(x):
+        return repr(x.tolist()) + ' as Series' if isinstance(x, pd.Series) else repr(x)
+
+    conts = [('list', 'list'), ('series', 'series'), ('tuple', 'list'), ('set', 'set'), ('list', 'series')]
     for k, (A, B) in enumerate(pairs):
         mj, mo, mc = outs[3 * k:3 * k + 3]
         hasna = (None in A) or (None in B)
         sa, sb = set(A) - {None}, set(B) - {None}
         nontriv = bool(sa & sb) and sa != sb
-        conts = [('list', 'list'), ('series', 'series'), ('tuple', 'list'), ('set', 'set'), ('list', 'series')]
         ca, cb = conts[k % len(conts)]
-        kind = 'str' if k % 2 else 'num'
         ctx.count('containers=%s/%s' % (ca, cb))
         ctx.count('with_missing' if hasna else 'no_missing')
         # overlap / overlap_coefficient: missing values anywhere (a Python set cannot hold two NaN objects reliably,
         # so missing values are given to sets as None)
         na = None if 'set' in (ca, cb) else [None, np.nan, pd.NA][(k // 7) % 3]
         ctx.count('missing_marker=%s' % ('None' if na is None else ('nan' if na is not pd.NA else 'pd.NA')))
-        a = realise(A, ca, kind if ca != 'set' else 'str', na)
-        b = realise(B, cb, kind if cb != 'set' else 'str', na)
-        if (ca == 'set' or cb == 'set') and kind == 'num':
-            a = realise(A, ca, 'str')
-            b = realise(B, cb, 'str')
-        for name, f, model in [('overlap', prs.overlap, mo), ('overlap_coefficient', prs.overlap_coefficient, mc)]:
-            impl = call_impl(f, a, b)
-            ctx.case(sample=dict(func=name, A=A, B=B, containers=[ca, cb], impl=str(impl), model=str(model)) if nontriv and k % 50 == 0 else None,
-                     nontrivial_key=(name, tuple(A), tuple(B)) if nontriv else None)
-            ok = (impl[0] == 'ok' and ((name == 'overlap' and int(impl[1]) == model) or
-                                       (name != 'overlap' and _cmp_val(impl, model))))
+        # every pair is run with a plain scalar kind and with a structured / heterogeneous kind
+        for kind in ('str' if k % 2 else 'num', ('tuple', 'mixed')[(k // 5) % 2]):
+            plain = kind in ('num', 'str')
+            if kind == 'num' and 'set' in (ca, cb):
+                kind = 'str'
+            ctx.count('elements=%s' % kind)
+            tag = () if plain else (kind,)
+            a = realise(A, ca, kind, na)
+            b = realise(B, cb, kind, na)
+            for name, f, model in [('overlap', prs.overlap, mo), ('overlap_coefficient', prs.overlap_coefficient, mc)]:
+                impl = call_impl(f, a, b)
+                ctx.case(sample=dict(func=name, A=A, B=B, containers=[ca, cb], elements=kind, impl=str(impl), model=str(model))
+                         if nontriv and k % 50 == 0 else None,
+                         nontrivial_key=(name, tuple(A), tuple(B)) + tag if nontriv else None)
+                ok = (impl[0] == 'ok' and ((name == 'overlap' and int(impl[1]) == model) or
+                                           (name != 'overlap' and _cmp_val(impl, model))))
+                if not ok:
+                    ctx.violation('property', '%s(%s, %s) = %s, expected %s  [tokens %s as %s, %s as %s, %s elements]' %
+                                  (name, show(a), show(b), impl, model, A, ca, B, cb, kind),
+                                  dict(func=name, A=A, B=B, containers=[ca, cb], elements=kind, a=show(a), b=show(b),
+                                       impl=str(impl), expected=str(model)),
+                                  site='stats.%s[%s]' % (name, 'set' if 'set' in (ca, cb) else 'other'))
+                # symmetry on the implementation
+                impl2 = call_impl(f, b, a)
+                if impl[0] == 'ok' and impl2[0] == 'ok' and not (impl[1] == impl2[1] or (impl[1] != impl[1] and impl2[1] != impl2[1])):
+                    ctx.violation('property', '%s not symmetric on %s, %s' % (name, show(a), show(b)),
+                                  dict(func=name, A=A, B=B, elements=kind, a=show(a), b=show(b)), site='stats.' + name)
+            # jaccard: missing values only inside Series
+            ja = realise(A, ca if (None not in A) else 'series', kind, na)
+            jb = realise(B, cb if (None not in B) else 'series', kind, na)
+            impl = call_impl(prs.jaccard_index, ja, jb)
+            ctx.case(nontrivial_key=('jaccard', tuple(A), tuple(B)) + tag if nontriv else None)
+            if mj is None:
+                ok = impl[0] == 'exc' or (impl[0] == 'ok' and math.isnan(impl[1]))
+            else:
+                ok = impl[0] == 'ok' and close(impl[1], mj)
             if not ok:
-                ctx.violation('property', '%s(%s as %s, %s as %s) = %s, expected %s' % (name, A, ca, B, cb, impl, model),
-                              dict(func=name, A=A, B=B, containers=[ca, cb], impl=str(impl), expected=str(model)),
-                              site='stats.%s[%s]' % (name, 'set' if 'set' in (ca, cb) else 'other'))
-            # symmetry on the implementation
-            impl2 = call_impl(f, b, a)
-            if impl[0] == 'ok' and impl2[0] == 'ok' and not (impl[1] == impl2[1] or (impl[1] != impl[1] and impl2[1] != impl2[1])):
-                ctx.violation('property', '%s not symmetric on %s, %s' % (name, A, B), dict(func=name, A=A, B=B), site='stats.' + name)
-        # jaccard: missing values only inside Series
-        ja = realise(A, ca if (None not in A) else 'series', kind, na)
-        jb = realise(B, cb if (None not in B) else 'series', kind, na)
-        impl = call_impl(prs.jaccard_index, ja, jb)
-        ctx.case(nontrivial_key=('jaccard', tuple(A), tuple(B)) if nontriv else None)
-        if mj is None:
-            ok = impl[0] == 'exc' or (impl[0] == 'ok' and math.isnan(impl[1]))
-        else:
-            ok = impl[0] == 'ok' and close(impl[1], mj)
-        if not ok:
-            ctx.violation('property', 'jaccard_index(%s, %s) = %s, expected %s' % (A, B, impl, mj),
-                          dict(func='jaccard_index', A=A, B=B, impl=str(impl), expected=str(mj)), site='stats.jaccard_index')
+                ctx.violation('property', 'jaccard_index(%s, %s) = %s, expected %s  [tokens %s, %s, %s elements]' %
+                              (show(ja), show(jb), impl, mj, A, B, kind),
+                              dict(func='jaccard_index', A=A, B=B, elements=kind, a=show(ja), b=show(jb),
+                                   impl=str(impl), expected=str(mj)), site='stats.jaccard_index')
+            elif mj is not None:
+                impl2 = call_impl(prs.jaccard_index, jb, ja)
+                if not (impl2[0] == 'ok' and impl2[1] == impl[1]):
+                    ctx.violation('property', 'jaccard_index not symmetric on %s, %s: %s vs %s' % (show(ja), show(jb), impl, impl2),
+                                  dict(func='jaccard_index', A=A, B=B, elements=kind, a=show(ja), b=show(jb)),
+                                  site='stats.jaccard_index')
         if k < 30:
             ctx.add_vm('api_overlap', [A, B], mo)
             ctx.add_vm('api_jaccard', [A, B], mj)
         if ctx.nprop() > 8:
             break
     ctx.assumptions += ['numpy sum / float64 division within 1e-9 of the exact rational',
-                        'pandas Series.dropna and Python set semantics (modelled: set of non-missing values)']
+                        'pandas Series.dropna and Python set semantics (modelled: set of non-missing values; elements are hashable '
+                        'items identified by Python ==/hash)']
 
 
 def replay(ctx, obj):
